@@ -10,7 +10,7 @@ from __future__ import annotations
 import ast
 import itertools
 
-from .core import AnalysisError, loc
+from .core import AnalysisError, loc, norm_src, walk_no_nested, dotted
 from .rat import Rat
 from .symx import Interp, Obj, Path, PDict, PList, Opaque, Unsupported, Fork, MonthSplit, Abort, canon
 
@@ -87,8 +87,19 @@ def tables(index, conv):
 
 
 def run(index, rep):
-    conv = build_conversions(index)
-    tabs = tables(index, conv)
+    rep.trusted_base = [
+        "CPython ast module parses the source the interpreter would run",
+        "allfedsa.rat exact Fraction-based polynomial arithmetic (identity by cross-multiplication)",
+        "allfedsa.symx evaluation rules for Assign/If/Return/BinOp/dict literals (the fragment these functions use)",
+        "parameters (kcals_daily, fat_daily, protein_daily, population) non-zero; real arithmetic (float rounding not modelled)",
+    ]
+    rep.guard(pure, index, rep)
+    conv = rep.guard(build_conversions, index)
+    if conv is None:
+        return
+    tabs = rep.guard(tables, index, conv)
+    if tabs is None:
+        return
     rep.note_analysed("table_sizes", {n: len(t) for n, t in tabs.items()})
     rep.guard(table_rules, tabs, rep)
     rep.guard(conv_rules, index, conv, tabs, rep)
@@ -260,7 +271,84 @@ def form_rules(index, conv, tabs, rep):
                           f"{n} values are not the operand's {n} values times the {n} conversion (lane crossing or missing "
                           "factor; shape is preserved because the factor is a scalar)", loc=loc(UC, fn),
                           detail=f"got {got}; want {want}")
-    rep.require_min(rule, 45)
+    # in_units itself, with targets that differ per nutrient (the wrappers always ask for the same unit for fat and protein, so a
+    # fat/protein mix-up inside in_units is invisible through them)
+    fn = index.func(UC, "UnitConversions.in_units")
+    MIXED = [("percent people fed", "billion people fed", "grams per person per day"),
+             ("kcals per person per day", "effective kcals per person per day", "thousand tons"),
+             ("billion people fed", "grams per person per day", "percent people fed")]
+    for target in MIXED:
+        for s in SUFFIXES:
+            units = [b + s for b in base_from]
+            want_units = [t + s for t in target]
+            if not all(want_units[i] in tabs[n] for i, n in enumerate(NUTR)):
+                continue
+            it, selfobj = new_interp(index, conv, {
+                "units": PList(units), "kcals_units": units[0], "fat_units": units[1], "protein_units": units[2],
+                "kcals": lanes[0], "fat": lanes[1], "protein": lanes[2]})
+            try:
+                res = it.call_function(fn, list(target), {}, selfobj)
+            except Abort as e:
+                rep.violation(rule, f"in_units{target}:{s.strip() or 'total'}", f"in_units rejects a supported unit triple ({e.why})", loc=loc(UC, fn))
+                continue
+            except (Unsupported, Fork, MonthSplit) as e:
+                raise AnalysisError(f"in_units outside the analysed fragment: {e!r}")
+            if not isinstance(res, PDict):
+                raise AnalysisError("in_units does not end in a Food(...) construction")
+            got_units = [res.d.get(k) for k in ("kcals_units", "fat_units", "protein_units")]
+            rep.check(got_units == want_units, rule, f"in_units{target}:{s.strip() or 'total'}:labels",
+                      f"result labels {got_units} are not the requested units in the operand's form (expected {want_units})", loc=loc(UC, fn))
+            for lane, n in enumerate(NUTR):
+                want = lanes[lane] * tabs[n][want_units[lane]] / tabs[n][units[lane]]
+                got = res.d.get(n)
+                ok = isinstance(got, Rat) and got == want
+                rep.check(ok, rule, f"in_units{target}:{s.strip() or 'total'}:{n}-lane",
+                          f"{n} values are not the operand's {n} values times the {n} conversion to the unit requested for {n} (units of two "
+                          "nutrients swapped, or a missing factor)", loc=loc(UC, fn), detail=f"got {got}; want {want}")
+    rep.require_min(rule, 70)
+
+
+def pure(index, rep):
+    """the multiplier tables and conversions are functions of the current requirement settings only: the table builders,
+    get_conversion and in_units store nothing on the (process-wide) conversions object or on self, and set_nutrition_requirements
+    is the only place the settings are written (C14.RESET shows it re-establishes all of them)"""
+    rule = "C10.PURE"
+    uc = index.methods(UC, "UnitConversions")
+    names = [m for m in uc if m.startswith(("get_kcal_multipliers", "get_fat_multipliers", "get_protein_multipliers", "get_unit_multipliers",
+                                             "get_conversion", "in_units"))]
+    if len(names) < 9:
+        raise AnalysisError(f"only {len(names)} conversion methods found")
+    for name in sorted(names):
+        fnn = uc[name]
+        aliases = {"self"}
+        for st in walk_no_nested(fnn):
+            if isinstance(st, ast.Assign) and len(st.targets) == 1 and isinstance(st.targets[0], ast.Name):
+                v = norm_src(st.value)
+                if v.endswith("get_conversions()") or v.endswith(".conversions"):
+                    aliases.add(st.targets[0].id)
+        bad = []
+        for st in walk_no_nested(fnn):
+            if isinstance(st, (ast.Assign, ast.AugAssign, ast.Delete)):
+                for t in (st.targets if not isinstance(st, ast.AugAssign) else [st.target]):
+                    base = t
+                    while isinstance(base, (ast.Subscript, ast.Attribute)):
+                        if isinstance(base, ast.Attribute) and isinstance(base.value, ast.Name) and base.value.id in aliases:
+                            bad.append(f"store {norm_src(t)[:50]} (line {st.lineno})")
+                            break
+                        if isinstance(base, ast.Attribute) and norm_src(base.value).endswith(("get_conversions()", ".conversions")):
+                            bad.append(f"store {norm_src(t)[:50]} (line {st.lineno})")
+                            break
+                        base = base.value
+            if isinstance(st, ast.Call) and dotted(st.func) == "setattr":
+                bad.append(f"setattr (line {st.lineno})")
+            if isinstance(st, ast.Call) and isinstance(st.func, ast.Attribute) and st.func.attr in ("update", "setdefault", "append", "pop", "clear") \
+                    and isinstance(st.func.value, ast.Attribute) and isinstance(st.func.value.value, ast.Name) and st.func.value.value.id in aliases:
+                bad.append(f"call {norm_src(st.func)[:50]}() (line {st.lineno})")
+        decs = [norm_src(d) for d in fnn.decorator_list if "cache" in norm_src(d).lower() or "memo" in norm_src(d).lower()]
+        rep.check(not bad and not decs, rule, f"UnitConversions.{name}: no stored state",
+                  "a conversion routine keeps state (" + "; ".join(bad[:3] + decs) + "): a multiplier computed under one requirement setting can be "
+                  "served under another", loc=loc(UC, fnn))
+    rep.require_min(rule, 9)
 
 
 def describe(rep):
